@@ -17,8 +17,11 @@ TEMPLATES = {
     "block_sim": "Mark: A\nBlock: B1\n    Simulate: In1 = 7\n    Mark: B\n    Simulate off: In1\n    End block\nMark: C\n",
     "nested": "Block: B1\n    Block: B2\n        Mark: A\n        End blocks\nRun counter: 3\nBase: s\nMark: B\n",
     "outputs": "SetOut1: 5\nMark: A\nPause: 0.3s\nMark: B\nIncrement run counter\n",
+    # two concurrent flows each opening a block: the Watch's block has to wait several ticks for the block lock
+    "two_flows": "Watch: In1 > 0\n    Block: W\n        Mark: X\n        End block\nBlock: A\n    Mark: A\n    Mark: B\n    Mark: C\n    End block\nMark: Z\n",
+    "alarm_block": "Alarm: In1 > 0\n    Block: BA\n        Mark: A1\n        End block\nMark: M1\nMark: M2\nMark: M3\n",
 }
-N = {"block_sim": 16, "nested": 14, "outputs": 14}
+N = {"block_sim": 16, "nested": 14, "outputs": 14, "two_flows": 24, "alarm_block": 22}
 
 
 def harness(sym):
@@ -45,6 +48,7 @@ def _body(sym, t, start):
     with engine_rig(sym, TEMPLATES[t], durations={"SetOut1": 2}) as rig:
         e = rig.engine
         rig.now = start
+        e.uod.hwl.mem["In1"] = 1
         rig.user("Start")
         last_value, last_time = {}, {}
         for tg in e._iter_all_tags():
@@ -95,7 +99,7 @@ OBLIGATIONS = [Obligation(
              "openpectus.lang.exec.pinterpreter:PInterpreter.visit_SimulateOffNode", "openpectus.engine.engine:Engine.update_calculated_tags",
              "openpectus.engine.engine:Engine.notify_tag_updates"],
     symbolic="every tick increment: arbitrary real in (0, 5] s; engine start time = wall clock at construction",
-    bounds={"quick": "3 templates (block + simulate/simulate off; nested blocks + End blocks + Run counter + Base; output command + pause/unpause), 14-16 ticks",
+    bounds={"quick": "5 templates (block + simulate/simulate off; nested blocks + End blocks + Run counter + Base; output command + pause/unpause; a Watch's block waiting for the block lock held by the main flow; block in a re-arming Alarm), 14-24 ticks",
             "thorough": "same"},
     assumptions=["floats modelled as reals; counterexamples replayed with IEEE floats", "the update queue is drained after every tick",
                  "UOD callbacks stamp the tags they set with the current tick time (harness UOD does)", "fake hardware; log statements removed at import"],
